@@ -28,6 +28,9 @@ class ThreadWaiter(object):
         with self.cond:
             if timeout is not None:
                 return self.cond.wait_for(pred, timeout)
+            if what and what[0] == "poll" and threading.current_thread().name.startswith("rv-server"):
+                # a serving loop that is idle between requests legitimately waits for as long as the session lasts
+                return self.cond.wait_for(pred, None)
             if self.cond.wait_for(pred, self.hard_limit):
                 return True
         self.stalls.append(what)
@@ -339,7 +342,7 @@ class ServedPair(object):
         self.net = Net(waiter=ThreadWaiter(hard_limit), fault=fault, epipe=epipe)
         self.b = svc_b._connect(Channel(self.net.b, compress), dict(cfg_b or {}))
         self.server_exc = None
-        self.thread = threading.Thread(target=self._serve, daemon=True)
+        self.thread = threading.Thread(target=self._serve, daemon=True, name="rv-server-B")
         self.thread.start()
         self.a = svc_a._connect(Channel(self.net.a, compress), dict(cfg_a or {}))
 
